@@ -14,7 +14,7 @@ from harness.common import CoqBatch, Names, canon, c_bool
 
 
 def make_case(rng, thorough=False):
-    g = gen.gen_dag(rng, max_nodes=8 if thorough else 7, emits=0.0)
+    g = gen.gen_dag(rng, max_nodes=8 if thorough else 7, emits=0.5 if rng.random() < 0.25 else 0.0)
     G = engine.real_input_spec(g)
     spec = G.inputs
     # bind some optional / required inputs on the graph
